@@ -680,6 +680,34 @@ def _stable_for(f):
                 for u in uses:
                     if Q.reachable_without(g, u, start=d, avoid_node=lambda n: n is b, weak=True) is not None or d is u:
                         return False
+        # attributes of the instance the test reads (`sock in self._clients`): nothing between the binding and a use may touch them — no store to the attribute, no
+        # method called on it, no call of a method of the instance (which might do either)
+        attrs = {src(w) for w in ast.walk(assign.value) if isinstance(w, ast.Attribute) and isinstance(w.value, ast.Name) and w.value.id == 'self'}
+        if attrs:
+            def touches(n):
+                if n.ast is None or n is b:
+                    return False
+                a_ = n.ast if n.kind not in ('with', 'for') else (n.ast.context_expr if n.kind == 'with' else n.ast.iter)
+                for w in ast.walk(a_):
+                    if isinstance(w, ast.Attribute) and src(w) in attrs and isinstance(w.ctx, (ast.Store, ast.Del)):
+                        return True
+                    if isinstance(w, (ast.Subscript,)) and src(w.value) in attrs and isinstance(w.ctx, (ast.Store, ast.Del)):
+                        return True
+                    if isinstance(w, ast.Call) and isinstance(w.func, ast.Attribute):
+                        recv = src(w.func.value)
+                        if recv in attrs and w.func.attr not in ('get', 'index', 'count', 'copy', 'keys', 'values', 'items'):
+                            return True
+                        if recv == 'self':
+                            return True
+                return False
+            movers = [n for n in g.nodes if touches(n)]
+            for mv in movers:
+                for u in uses:
+                    if mv is u:
+                        continue
+                    # a mover between the binding and the use
+                    if Q.reaches(b, mv, weak=True) and Q.reachable_without(g, u, start=mv, avoid_node=lambda n: n is b, weak=True) is not None:
+                        return False
         return True
     return stable
 
